@@ -532,7 +532,7 @@ func (x *runner) runC04() {
 			}
 		}
 		r.Count("outcome:" + cls)
-		if !strings.HasPrefix(impl, "err syntax") {
+		if !strings.HasPrefix(impl, "err other") {
 			r.Distinctive(op)
 		}
 		x.ask(op, impl, sigK)
@@ -604,6 +604,12 @@ func (x *runner) runC04() {
 			}
 		}
 	}
+	// untyped Go values of the wrong shape, against the model
+	nAny := 40
+	if x.cfg.Tier == "thorough" {
+		nAny = 400
+	}
+	x.runAnyK(types, nAny)
 	// untyped Go values of arbitrary shape
 	anyVals := []any{nil, 1, int64(2), 3.5, "s", []byte("b"), true, []any{}, []any{1, "a", nil}, map[string]any{}, map[string]any{"id": "x"},
 		map[string]any{"id": nil}, map[int]any{1: 2}, []int{1}, (*int)(nil), new(int), struct{}{}, map[string]any{"inner": []any{1}}, map[string]any{"u": map[string]any{"int": map[string]any{}}}}
@@ -658,6 +664,7 @@ func (x *runner) runC06() {
 				var impl, op string
 				if f == "any" {
 					impl = x.b.DecodeAny(t, doc, nil, 0)
+					x.askAny(t, doc, nil, 0, impl, "untyped reader")
 					op = "any " + t.Ref + " " + doc.JSON(JSONStyle{})
 				} else {
 					data, ok := renderFor(f, doc, x.rng)
@@ -888,7 +895,7 @@ func (x *runner) runC07() {
 						trueMiss = append(trueMiss, m)
 					}
 				}
-				if impl2 == "err union" {
+				if impl2 == "err other" {
 					// pruning removed the only member of a union: not a question of missing fields
 				} else if len(trueMiss) == 0 {
 					if !strings.HasPrefix(impl2, "ok ") {
@@ -1066,7 +1073,7 @@ func (x *runner) runC11() {
 					if !valid {
 						r.Distinctive(op)
 					}
-					if valid != strings.HasPrefix(impl, "ok ") || (!valid && impl != "err union") {
+					if valid != strings.HasPrefix(impl, "ok ") || (!valid && impl != "err other") {
 						r.OracleFail(hx.Case{Sig: "C11 union encode accepted/rejected wrongly", Op: op, Impl: impl, Expected: fmt.Sprint("valid=", valid)})
 					}
 					x.ask(op, impl, "C11 enc union")
@@ -1075,6 +1082,7 @@ func (x *runner) runC11() {
 					var impl, op string
 					if f == "any" {
 						impl = x.b.DecodeAny(t, doc, nil, 0)
+						x.askAny(t, doc, nil, 0, impl, "untyped reader")
 						op = "any " + t.Ref + " " + doc.JSON(JSONStyle{})
 					} else {
 						data, _ := renderFor(f, doc, x.rng)
@@ -1102,6 +1110,7 @@ func (x *runner) runC11() {
 						var impl, op string
 						if f == "any" {
 							impl = x.b.DecodeAny(t, doc, nil, 0)
+							x.askAny(t, doc, nil, 0, impl, "untyped reader")
 							op = "any " + t.Ref + " " + doc.JSON(JSONStyle{})
 						} else {
 							data, _ := renderFor(f, doc, x.rng)
@@ -1128,6 +1137,7 @@ func (x *runner) runC11() {
 					var impl, op string
 					if f == "any" {
 						impl = x.b.DecodeAny(t, doc, nil, 0)
+						x.askAny(t, doc, nil, 0, impl, "untyped reader")
 						op = "any " + t.Ref + " " + strconv.Itoa(l)
 					} else {
 						data, _ := renderFor(f, doc, x.rng)
@@ -1177,6 +1187,7 @@ func (x *runner) runC11() {
 					var impl, op string
 					if f == "any" {
 						impl = x.b.DecodeAny(t, doc, nil, 0)
+						x.askAny(t, doc, nil, 0, impl, "untyped reader")
 						op = "any " + t.Ref + " " + s
 					} else {
 						data, _ := renderFor(f, doc, x.rng)
@@ -1241,6 +1252,7 @@ func (x *runner) runC13() {
 				var impl, op string
 				if f == "any" {
 					impl = x.b.DecodeAny(t, ref, nil, 0)
+					x.askAny(t, ref, nil, 0, impl, "untyped reader")
 					op = "any " + t.Ref + " " + ref.JSON(JSONStyle{})
 				} else {
 					data, _ := renderFor(f, ref, x.rng)
